@@ -60,7 +60,13 @@ func (vm *VM) symRegexSubmatch(re *regexp.Regexp, s Value) Value {
 			case syntax.InstFail:
 				return nil
 			case syntax.InstMatch:
-				return caps
+				// group 0 is the whole match (the pattern is anchored at the start)
+				nc := make([]int, len(caps))
+				copy(nc, caps)
+				if len(nc) >= 2 {
+					nc[0], nc[1] = 0, pos
+				}
+				return nc
 			case syntax.InstNop:
 				pc = int(in.Out)
 			case syntax.InstCapture:
